@@ -1314,7 +1314,7 @@ func c15Registered(p *Program, r *Report) {
 			}
 			local := len(rec) > 0
 			for _, ch := range rec {
-				if !(ch == "self" || strings.Contains(ch, "Context.parent<-") || strings.Contains(ch, "Context.ref<-") || strings.Contains(ch, "param:targets") || strings.Contains(ch, ".targets<-") || strings.Contains(ch, "Supervise") || strings.Contains(ch, "Children")) {
+				if !(ch == "self" || strings.Contains(ch, lc.pat(lc.ParentF)) || strings.Contains(ch, lc.pat(lc.RefF)) || strings.Contains(ch, "param:targets") || strings.Contains(ch, ".targets<-") || strings.Contains(ch, "Supervise") || strings.Contains(ch, "Children")) {
 					local = false
 				}
 			}
